@@ -23,6 +23,9 @@ namespace Variation
 structure Obj where
   genome : List Int
   fit : Option (List Int)
+  /-- the instance attribute `history_index` that `tools.History.update` stamps on an individual
+  (`none` = the attribute is absent); part of the individual's `__dict__`, so `toolbox.clone` carries it forward -/
+  hidx : Option Nat := none
 deriving DecidableEq, Repr, Inhabited
 
 abbrev Heap := Nat → Obj
